@@ -349,6 +349,9 @@ func TestC14(t *testing.T) {
 		if info.ZeroRate {
 			labels = append(labels, "zero-rate-asset")
 		}
+		if info.Unrated && info.PrevGraded > 0 {
+			labels = append(labels, "unrated-snapshot-after-graded-block")
+		}
 		if info.Unrated {
 			labels = append(labels, "unrated-snapshot")
 		}
